@@ -1104,7 +1104,7 @@ class G:
             if self.p["match"]:
                 opts += [(2, "matchtail")]
             if self.p["handle"] and [f for f in self.funs.values() if f["raises"] and f["ret"] == ret]:
-                opts += [(3, "hndtail")]
+                opts += [(9, "hndtail")]
         k = self.weighted(opts)
         if k != "expr":
             self.branch_budget -= 1
